@@ -1,5 +1,243 @@
-"""C13 — bounded stand-in for now (runtime contracts on the real code against an independent reference); see DESIGN.md."""
-BOUNDED_ONLY = True
+"""C13 — reconstruction measures: what is computed from what (data flow of the real functions as terms over uninterpreted scaler / estimator functions).
+
+Real functions: pointwise_global_reconstruction_error, global_reconstruction_error, pointwise_global_reconstruction_distortion,
+global_reconstruction_distortion, local_reconstruction_error (the rms step), check_global_reconstruction_measures_input
+(skmatter/metrics/_reconstruction_measures.py).
+
+Whole arrays are terms of an uninterpreted sort: ROWS(A, idx) (row selection), SCALE(F, A) (the scaler fitted on F applied to A), PRED(Fx, Fy, A) (the estimator
+fitted on (Fx, Fy) predicting A), OPRED(Fx, Fy, A) (OrthogonalRegression(use_orthogonal_projector=False) fitted on (Fx, Fy) predicting A, in the zero-padded space
+of max(n_x, n_y) columns: proved under C18), SUBT, PADR (zero padding on the right), ROWNORM (Euclidean norm of every row), NORM.  The contract of each function is
+that its result is the documented term for EVERY scaler and estimator (user-supplied or default): the scaler is fitted on the TRAINING rows of the space it
+transforms, the estimator on the scaled training rows, errors are taken on the scaled TEST rows, global values are norm / sqrt(number of test points), the narrower
+prediction is zero-padded to the wider one whichever space is wider.  Semantic consequences that depend on the estimator (zero error on contained information,
+invariances, GRE <= 1 on the training set) are NOT derived here: bounded runtime checks."""
+from pyvc.api import *
+from pyvc import skstubs
+from pyvc.engine import ExtNS, ExtClass, Opaque
+
+RM = 'skmatter.metrics._reconstruction_measures'
+OR = 'skmatter.linear_model._base.OrthogonalRegression'
+TA = z3.DeclareSort('TArr'); TI = z3.DeclareSort('TIdx')
+ROWS = z3.Function('ROWS', TA, TI, TA)
+SCALE = z3.Function('SCALE', TA, TA, TA)
+PRED = z3.Function('PRED', TA, TA, TA, TA)
+OPRED = z3.Function('OPRED', TA, TA, TA, TA)
+SUBT = z3.Function('SUBT', TA, TA, TA)
+PADR = z3.Function('PADR', TA, IntS, TA)
+ROWNORM = z3.Function('ROWNORM', TA, TA)
+NORM = z3.Function('NORM', TA, RealS)
+COMPL = z3.Function('COMPL', IntS, TI, TI)             # np.setdiff1d(np.arange(n), idx)
+ALLIDX = z3.Function('ALLIDX', IntS, TI)                # np.arange(n)
+SQRT = npstubs.SQRT
+
+def mk(I, term, shape):
+    r = I.fresh_arr('t', shape)
+    A = I.A(r)
+    I.st.heap[r.id] = ArrVal(A.shape, A.elem, RealS, ('T', term))
+    return r
+def mk_idx(I, term, n):
+    r = I.fresh_arr('idx', (n,), IntS)
+    A = I.A(r)
+    I.st.heap[r.id] = ArrVal(A.shape, A.elem, IntS, ('TI', term))
+    return r
+def T_(I, a):
+    A = I.A(a)
+    if A.tag and A.tag[0] == 'T': return A.tag[1]
+    raise Unsupported("array without a data-flow term")
+def TI_(I, a):
+    A = I.A(a)
+    if A.tag and A.tag[0] == 'TI': return A.tag[1]
+    if A.tag and A.tag[0] == 'arange': return ALLIDX(A.tag[1])
+    raise Unsupported("index array without a data-flow term")
+
+def getitem_hook(I, b, ix):
+    A = I.A(b)
+    if A.tag and A.tag[0] == 'T' and A.ndim == 2 and isinstance(ix, ArrRef) and I.A(ix).tag and I.A(ix).tag[0] in ('TI', 'arange'):
+        return mk(I, ROWS(A.tag[1], TI_(I, ix)), (I.A(ix).shape[0], A.shape[1]))
+    return None
+
+def binop_hook(I, op, a, b, what):
+    if isinstance(a, ArrRef) and isinstance(b, ArrRef):
+        A, B = I.A(a), I.A(b)
+        if A.tag and B.tag and A.tag[0] == 'T' and B.tag[0] == 'T' and op is ast.Sub:
+            for x, y in zip(A.shape, B.shape):
+                sd = npstubs.same_dim(x, y)
+                if sd is False: raise RaiseEx('ValueError')
+                if sd is None: I.ob(f'shape:{what}', tz(x) == tz(y), kind='shape')
+            return mk(I, SUBT(A.tag[1], B.tag[1]), A.shape)
+    return None
+import ast
+
+def np_norm(I, a, axis=None, **kw):
+    A = I.A(a)
+    if A.tag and A.tag[0] == 'T':
+        if A.ndim == 2 and axis == 1: return mk(I, ROWNORM(A.tag[1]), (A.shape[0],))
+        if A.ndim == 1 and axis is None: return NORM(A.tag[1])
+    raise Unsupported("np.linalg.norm form")
+
+def np_pad(I, a, pad_width, *args, **kw):
+    A = I.A(a)
+    pw = [tuple(x) for x in pad_width]
+    isz = lambda v: (not is_sym(conc(v))) and conc(v) == 0
+    if not (A.tag and A.tag[0] == 'T') or len(pw) != 2 or not isz(pw[0][0]) or not isz(pw[0][1]) or not isz(pw[1][0]) or args or kw: raise Unsupported("np.pad form")
+    extra = tz(pw[1][1])
+    I.ob('pre:np.pad:non-negative-width', extra >= 0, kind='pre')
+    return mk(I, PADR(A.tag[1], extra), (A.shape[0], conc(z3.simplify(tz(A.shape[1]) + extra))))
+
+def np_setdiff1d(I, a, b, **kw):
+    npstubs.used('np.setdiff1d(np.arange(n), idx) (complement of an index set)')
+    rng_ = I.A(a)
+    if not (rng_.tag and rng_.tag[0] == 'arange'): raise Unsupported("setdiff1d form")
+    n = rng_.shape[0]
+    m = I.fresh('n_complement', IntS); I.assume(And(m >= 0, m <= tz(n)))
+    return mk_idx(I, COMPL(tz(n), TI_(I, b)), m)
+
+def np_arange(I, n, *a, **kw):
+    if a or kw: raise Unsupported("arange form")
+    r = I.fresh_arr('arange', (n,), IntS); A = I.A(r)
+    I.st.heap[r.id] = ArrVal(A.shape, lambda i: tz(i), IntS, ('arange', tz(n)))
+    return r
+
+def make_scaler(I):
+    st = dict(fit=None, calls=[])
+    def fit(I2, A, *a, **k):
+        st['fit'] = T_(I2, A); st['calls'].append(('fit', st['fit'])); return obj
+    def transform(I2, A, *a, **k):
+        if st['fit'] is None: raise RaiseEx('NotFittedError')
+        st['calls'].append(('transform', T_(I2, A)))
+        return mk(I2, SCALE(st['fit'], T_(I2, A)), I2.A(A).shape)
+    obj = skstubs.StubObj(kind='Scaler', fit=fit, transform=transform)
+    obj._st = st
+    return obj
+
+def make_estimator(I):
+    st = dict(fit=None, ncols=None, calls=[])
+    def fit(I2, A, B, *a, **k):
+        st['fit'] = (T_(I2, A), T_(I2, B)); st['ncols'] = I2.A(B).shape[1]; st['calls'].append(('fit',) + st['fit']); return obj
+    def predict(I2, A, *a, **k):
+        if st['fit'] is None: raise RaiseEx('NotFittedError')
+        return mk(I2, PRED(st['fit'][0], st['fit'][1], T_(I2, A)), (I2.A(A).shape[0], st['ncols']))
+    obj = skstubs.StubObj(kind='Estimator', fit=fit, predict=predict)
+    obj._st = st
+    return obj
+
+def or_fit_contract():
+    def make_result(I, F):
+        o = I.O(F['self'])
+        o.attrs['_c13_fit'] = (T_(I, F['X']), T_(I, F['y']), I.A(F['X']).shape[1], I.A(F['y']).shape[1])
+        I.cur.setdefault('or_ctor', []).append(dict(use_orthogonal_projector=o.attrs.get('use_orthogonal_projector'), linear_estimator=o.attrs.get('linear_estimator')))
+        return F['self']
+    return FuncContract(make_result=make_result)
+def or_predict_contract():
+    def make_result(I, F):
+        o = I.O(F['self'])
+        tx, ty, nx, ny = o.attrs['_c13_fit']
+        w = z3.simplify(If(tz(nx) >= tz(ny), tz(nx), tz(ny)))
+        return mk(I, OPRED(tx, ty, T_(I, F['X'])), (I.A(F['X']).shape[0], conc(w)))
+    return FuncContract(make_result=make_result)
+
+def extend_ext(ext):
+    skstubs.install(ext)
+    ext['mat_getitem'] = getitem_hook; ext['mat_binop'] = binop_hook
+    np_ = ext['modules']['np']
+    np_.linalg.norm = np_norm; np_.pad = np_pad; np_.setdiff1d = np_setdiff1d; np_.arange = np_arange
+    for k in ('joblib.Parallel', 'joblib.delayed'): ext['names'].setdefault(k, ExtClass(k.split('.')[-1]))
+
+FUNCS = {OR + '.fit': or_fit_contract(), OR + '.predict': or_predict_contract()}
+
+def setup(I):
+    n, nx, ny = I.fresh('n', IntS), I.fresh('nx', IntS), I.fresh('ny', IntS)
+    ntr, nte = I.fresh('n_train', IntS), I.fresh('n_test', IntS)
+    I.assume(And(n >= 2, nx >= 1, ny >= 1, ntr >= 1, nte >= 1))
+    I.cur = {}
+    Xt, Yt = z3.Const('X', TA), z3.Const('Y', TA); tr, te = z3.Const('train_idx', TI), z3.Const('test_idx', TI)
+    X, Y = mk(I, Xt, (n, nx)), mk(I, Yt, (n, ny))
+    train, test = mk_idx(I, tr, ntr), mk_idx(I, te, nte)
+    sc, est = make_scaler(I), make_estimator(I)
+    Xtr, Xte, Ytr, Yte = ROWS(Xt, tr), ROWS(Xt, te), ROWS(Yt, tr), ROWS(Yt, te)
+    sX = lambda A: SCALE(Xtr, A); sY = lambda A: SCALE(Ytr, A)
+    return dict(n=n, nx=nx, ny=ny, ntr=ntr, nte=nte, X=X, Y=Y, train=train, test=test, sc=sc, est=est, Xtr=Xtr, Xte=Xte, Ytr=Ytr, Yte=Yte, sX=sX, sY=sY,
+                pred=lambda A: PRED(sX(Xtr), sY(Ytr), A))
+
+def gre_term(s): return ROWNORM(SUBT(s['sY'](s['Yte']), s['pred'](s['sX'](s['Xte']))))
+def grd_term(s, wide):
+    pr = s['pred'](s['sX'](s['Xte']))
+    op = OPRED(s['sX'](s['Xtr']), s['pred'](s['sX'](s['Xtr'])), s['sX'](s['Xte']))
+    pad = If(s['nx'] >= s['ny'], s['nx'], s['ny']) - s['ny']
+    return ROWNORM(SUBT(PADR(pr, pad), op))
+
+def u_pointwise(which):
+    q = RM + ('.pointwise_global_reconstruction_error' if which == 'gre' else '.pointwise_global_reconstruction_distortion')
+    def body(I):
+        s = setup(I)
+        r = I.call_func(I.repo.get(q), [s['X'], s['Y']], dict(train_idx=s['train'], test_idx=s['test'], scaler=s['sc'], estimator=s['est']))
+        R = I.A(r)
+        I.ob('post[C13]:one-value-per-test-point', And(BoolVal(R.ndim == 1), tz(R.shape[0]) == s['nte']), kind='post')
+        spec = gre_term(s) if which == 'gre' else grd_term(s, None)
+        I.ob('post[C13]:' + ('pointwise-GRE-is-the-row-norm-of-scaled-test-targets-minus-the-prediction-of-the-estimator-fitted-on-the-scaled-training-rows' if which == 'gre' else
+                            'pointwise-GRD-is-the-row-norm-of-the-zero-padded-prediction-minus-the-orthogonal-regression-of-the-training-predictions-applied-to-the-test-rows'),
+             T_(I, r) == spec, kind='post')
+        fits = [c for c in s['sc']._st['calls'] if c[0] == 'fit']
+        I.ob('post[C13]:scaler-is-fitted-exactly-twice', BoolVal(len(fits) == 2), kind='post')
+        if len(fits) == 2:
+            I.ob('post[C13]:scaler-is-fitted-on-the-training-rows-of-X-then-on-the-training-rows-of-Y', And(fits[0][1] == s['Xtr'], fits[1][1] == s['Ytr']), kind='post')
+        efits = [c for c in s['est']._st['calls'] if c[0] == 'fit']
+        I.ob('post[C13]:estimator-is-fitted-once-on-the-scaled-training-rows', And(BoolVal(len(efits) == 1), *([efits[0][1] == s['sX'](s['Xtr']), efits[0][2] == s['sY'](s['Ytr'])] if len(efits) == 1 else [])), kind='post')
+        if which == 'grd':
+            oc = I.cur.get('or_ctor', [])
+            I.ob('post[C13]:orthogonal-regression-runs-in-the-padded-space (use_orthogonal_projector=False)', BoolVal(len(oc) == 1 and oc[0]['use_orthogonal_projector'] is False), kind='post')
+    return Unit(f'pointwise_{which}', body, funcs=FUNCS, functions=[q])
+
+def u_global(which):
+    q = RM + {'gre': '.global_reconstruction_error', 'grd': '.global_reconstruction_distortion'}[which]
+    def body(I):
+        s = setup(I)
+        r = I.call_func(I.repo.get(q), [s['X'], s['Y']], dict(train_idx=s['train'], test_idx=s['test'], scaler=s['sc'], estimator=s['est']))
+        spec = gre_term(s) if which == 'gre' else grd_term(s, None)
+        I.ob('post[C13]:global-value-is-the-root-mean-square-of-the-pointwise-values (norm / sqrt(number of test points))',
+             to_real(tz(r)) == NORM(spec) / SQRT(z3.ToReal(s['nte'])), kind='post')
+    return Unit(f'global_{which}', body, funcs=FUNCS, functions=[q])
+
+def u_defaults(given):
+    """index defaults: a missing index set is the complement of the given one"""
+    q = RM + '.check_global_reconstruction_measures_input'
+    def body(I):
+        s = setup(I)
+        kw = dict(train_idx=s['train'] if given == 'train' else None, test_idx=s['test'] if given == 'test' else None)
+        r = I.call_func(I.repo.get(q), [s['X'], s['Y'], kw['train_idx'], kw['test_idx'], s['sc'], s['est']], {})
+        tr, te, sc, est = r
+        g = s['train'] if given == 'train' else s['test']
+        other = te if given == 'train' else tr
+        I.ob('post[C13]:given-index-set-is-kept', BoolVal((tr if given == 'train' else te).id == g.id), kind='post')
+        I.ob('post[C13]:missing-index-set-is-the-complement-of-the-given-one', TI_(I, other) == COMPL(s['n'], TI_(I, g)), kind='post')
+        I.ob('post[C13]:user-scaler-and-estimator-are-kept', BoolVal(sc is s['sc'] and est is s['est']), kind='post')
+    return Unit(f'check_input[{given}-given]', body, funcs=FUNCS, functions=[q])
+
+LREP = z3.Function('LREP', TA, TA, IntS, TI, TI, TA)
+def lre_pointwise_contract():
+    def make_result(I, F):
+        I.cur['lre_args'] = dict(F)
+        return mk(I, LREP(T_(I, F['X']), T_(I, F['Y']), tz(F['n_local_points']), TI_(I, F['train_idx']), TI_(I, F['test_idx'])), (I.A(F['test_idx']).shape[0],))
+    return FuncContract(make_result=make_result)
+
+def u_global_lre():
+    q = RM + '.local_reconstruction_error'
+    def body(I):
+        s = setup(I)
+        k = I.fresh('n_local_points', IntS); I.assume(And(k >= 2, k <= s['ntr']))
+        r = I.call_func(I.repo.get(q), [s['X'], s['Y'], k], dict(train_idx=s['train'], test_idx=s['test'], scaler=s['sc'], estimator=s['est'], n_jobs=1))
+        F = I.cur.get('lre_args')
+        I.ob('post[C13]:pointwise-values-computed-once-with-the-arguments-handed-in', BoolVal(F is not None and F['X'].id == s['X'].id and F['Y'].id == s['Y'].id and F['train_idx'].id == s['train'].id
+                                                                                              and F['test_idx'].id == s['test'].id and F['scaler'] is s['sc'] and F['estimator'] is s['est'] and F['n_jobs'] == 1), kind='post')
+        I.ob('post[C13]:same-number-of-neighbours', tz(F['n_local_points']) == k if F else BoolVal(False), kind='post')
+        spec = LREP(T_(I, s['X']), T_(I, s['Y']), k, TI_(I, s['train']), TI_(I, s['test']))
+        I.ob('post[C13]:global-value-is-the-root-mean-square-of-the-pointwise-values (norm / sqrt(number of test points))', to_real(tz(r)) == NORM(spec) / SQRT(z3.ToReal(s['nte'])), kind='post')
+    fn = dict(FUNCS); fn[RM + '.pointwise_local_reconstruction_error'] = lre_pointwise_contract()
+    return Unit('global_lre', body, funcs=fn, functions=[q])
+
+UNITS = [lambda: u_global_lre(), lambda: u_pointwise('gre'), lambda: u_pointwise('grd'), lambda: u_global('gre'), lambda: u_global('grd'), lambda: u_defaults('train'), lambda: u_defaults('test')]
 RT = True
-UNITS = []
-TRUSTED = ["independent numpy reference implementation of the property's formulas; tolerance policy |a-b| <= atol*scale + rtol*|b|"]
+TRUSTED = ["data-flow terms: whole arrays as terms over uninterpreted scaler / estimator / orthogonal-regression functions (free term algebra: equal terms mean the same data flow)",
+           "OrthogonalRegression(use_orthogonal_projector=False).predict works in the zero-padded space of max(n_x, n_y) columns (proved under C18)",
+           "everything that depends on what the estimator computes (zero error on contained information, invariances under rotations / scalings / shifts, GRE <= 1 on the training set, LRE with all "
+           "training points = pointwise GRE) and the local (LRE) neighbourhood construction: bounded runtime checks only"]
